@@ -5,7 +5,7 @@ from __future__ import annotations
 import asyncio
 from typing import Any, Awaitable, Callable
 
-from . import vloop
+from . import uvrun, vloop
 from .replay import Recorder, ScenarioController, ensure_repo_on_path
 
 
@@ -56,15 +56,17 @@ class Bench:
         self.rec.emit(ev="quiescent", **self.obs())
 
     def run(self, setup: Callable[[], None], client: Callable[[int, list], Awaitable[None]],
-            *, eager: bool = False, params: dict | None = None) -> dict:
+            *, eager: bool = False, params: dict | None = None,
+            uv: bool = False) -> dict:
         import anyio
 
         async def wrapped(t: int, script: list) -> None:
+            self.ids[id(asyncio.current_task())] = t
             with self.scopes[t]:
                 await client(t, script)
 
         async def main() -> None:
-            self.loop = asyncio.get_running_loop()  # type: ignore[assignment]
+            self.loop = uvrun.view(asyncio.get_running_loop())  # type: ignore[assignment]
             setup()
             self.scopes = {t: anyio.CancelScope() for t in range(1, self.nt + 1)}
             for t in range(1, self.nt + 1):
@@ -74,7 +76,7 @@ class Bench:
             await asyncio.wait(list(self.tasks.values()))
             self._quiescent()
 
-        loop, _res, err = vloop.run(main, self.ctl, eager=eager, max_handles=20000)
+        loop, _res, err = (uvrun.run if uv else vloop.run)(main, self.ctl, eager=eager, max_handles=20000)
         self.rec.closed = True
         flags = {"deadlock": isinstance(err, vloop.Deadlock), "budget": loop.budget_exceeded,
                  "error": None if err is None or isinstance(err, (vloop.Deadlock, vloop.BudgetExceeded))
